@@ -27,7 +27,7 @@ META = {
             "evaluation at 1 (and at 2 for e<=60), str; all pairs (a,b) with a+b<=600 for (c*q0**a)*(d*q0**b) (one packed call "
             "per a); two- and three-indeterminate exponent tuples on a boundary grid through multiply, power, derivative, call, "
             "pickle; every two-term polynomial 2*x**t1+3*x**t2 over all pairs of tuples of the 14x14 two-name grid times a constant, "
-            "times q0+q1, plus q0+q1, squared, differentiated; savetxt/loadtxt ('correct or error', StringIO and files written/read with latin1 / utf-8 / default encodings and binary streams) for every single exponent < 300 in three positions and every exponent pair (a,b) < 110; exponents beyond 55000 up to 2**31: correct or error. "
+            "times q0+q1, plus q0+q1, squared, differentiated; savetxt/loadtxt ('correct or error', StringIO and files written/read with latin1 / utf-8 / default encodings and binary streams) for every single exponent < 300 in three positions and every exponent pair (a,b) < 110; exponents beyond 55000 up to 2**31: correct or error; exponents around 2**31, 2**32-59 .. 2**32+59, 2**33, 2**63, 2**64 and negative ones over 1-3 names through every constructor form (list, int64/uint64/object array, dict, ndpoly) and products / powers that cross the 32-bit limit: the exact monomial or an error. "
             "distinct = exponent value or tuple x operation.",
     "bounds": lambda tier: {"single_exponents": LIMIT, "coverage_of_single_exponents": "all" if tier == "thorough" else "core + 1/8 slice",
                             "pair_sum": 600, "grid": GRID, "beyond": BIG},
@@ -72,6 +72,8 @@ def cases(tier, seed):
         out.append({"k": "textpairs", "a0": a0, "a1": a0 + 5})
     for e in BIG:
         out.append({"k": "big", "e": e})
+    for k_ in (1, 2, 3):
+        out.append({"k": "huge", "names": k_})
     out.sort(key=lambda c: {"grid3": 0, "grid2": 1, "text": 2, "pairs": 3}.get(c["k"], 4))   # longest first
     return out
 
@@ -404,8 +406,59 @@ def run_big(case, R):
     text_roundtrip(R, p, m, f"exponent {e}", tags)
 
 
+HUGE = [2 ** 31 - 1, 2 ** 31, 2 ** 32 - 61, 2 ** 32 - 60, 2 ** 32 - 59, 2 ** 32 - 1, 2 ** 32, 2 ** 32 + 1, 2 ** 32 + 59, 2 ** 33 + 5,
+        2 ** 63 - 1, 2 ** 64 + 3, -1, -5]
+
+
+def run_huge(case, R):
+    """exponents around the limits of the uint32 storage (and negative ones) through every public way of handing exponents
+    over, and arithmetic that crosses the limit: the exact monomial or an error, never another monomial"""
+    k = case["names"]
+    names = ("q0", "q1", "q2")[:k]
+    tags = ["huge", f"names={k}"]
+    for e in HUGE:
+        row = ((e, 1, 0)[:k])
+        R.state(("huge", k, e))
+        mono = frozenset((n, x) for n, x in zip(names, row) if x)
+        m = V({mono: exact_array(numpy.array(3))}, ())
+        ok_model = eq_model(m) if e >= 0 else (lambda got: f"a polynomial was built from the negative exponent {e}: {got!r}"[:200])
+        forms = [("from_attributes(list)", lambda: numpoly.polynomial_from_attributes([list(row)], [3], names)),
+                 ("from_attributes(object array)", lambda: numpoly.polynomial_from_attributes(numpy.array([list(row)], dtype=object), [3], names)),
+                 ("polynomial(dict)", lambda: numpoly.polynomial({tuple(row): 3}, names=names)),
+                 ("ndpoly(list)", lambda: filled_ndpoly([list(row)], names))]
+        if -2 ** 63 <= e < 2 ** 63:
+            forms += [("from_attributes(int64 array)", lambda: numpoly.polynomial_from_attributes(numpy.array([list(row)], dtype="i8"), [3], names)),
+                      ("ndpoly(int64 array)", lambda: filled_ndpoly(numpy.array([list(row)], dtype="i8"), names))]
+        if 0 <= e < 2 ** 64:
+            forms += [("from_attributes(uint64 array)", lambda: numpoly.polynomial_from_attributes(numpy.array([list(row)], dtype="u8"), [3], names))]
+        built = None
+        for lab, f in forms:
+            got = expect(R, lab, f"exponent {e} over {names}", f, ok_model, tags, allow_error=True)
+            if got is not None and built is None:
+                built = got
+        if built is None:
+            continue
+        # arithmetic across the limit
+        x0 = numpoly.symbols("q0")
+        X0 = V.var("q0")
+        for lab, f, want in (("multiply by q0", lambda: built * x0, m * X0), ("square", lambda: built * built, m * m), ("power 2", lambda: built ** 2, m * m),
+                             ("multiply by q0**61", lambda: built * x0 ** 61, m * X0 ** 61), ("add", lambda: built + x0, m + X0),
+                             ("derivative", lambda: numpoly.derivative(built, "q0"), m.diff("q0")), ("pickle", lambda: pickle.loads(pickle.dumps(built)), m)):
+            expect(R, lab, f"exponent {e} over {names}", f, eq_model(want), tags, allow_error=True)
+
+
+def filled_ndpoly(exponents, names):
+    p = numpoly.ndpoly(exponents=exponents, shape=(), names=names, dtype="i8")
+    raw = raw_view(p)
+    for key in p.keys:
+        raw[key] = 3
+    return p
+
+
 def run_case(case, R):
     k = case["k"]
+    if k == "huge":
+        return run_huge(case, R)
     if k == "single":
         run_single(case, R)
     elif k == "pairs":
